@@ -505,8 +505,12 @@ func c15Records(c *core.Ctx) {
 	if workers > 14 {
 		workers = 14
 	}
-	c.RunSharded(ids, core.ShardOpts{Mode: "c15rec", Workers: workers, Timeout: 20 * time.Minute, MaxDeaths: 40,
+	c.RunSharded(ids, core.ShardOpts{Mode: "c15rec", Workers: workers, Timeout: 20 * time.Minute, MaxDeaths: 40, Env: []string{"VERIF_CASE_TIMEOUT=30"},
 		Died: func(caseID string, r *core.ChildResult) {
+			if r.Exit == 97 {
+				c.Violation(caseID, "", "corrupted-record-makes-load-or-build-hang", map[string]any{"bound": "Load+Run of the reference project (normally ~3 ms) did not finish within 30 s", "stderr": headLinesStr(r.Stderr, 40)})
+				return
+			}
 			if r.TimedOut && r.FatalKind() == "" {
 				c.Inconclusive("record corruption " + caseID + ": watchdog fired")
 				return
